@@ -53,3 +53,27 @@ func VerifUpstreamMtu(domain string, e enc.Encoder) uint32 {
 	dc.Serializer.Upstream.Encoder = e
 	return dc.getUpstreamMtu()
 }
+
+// VerifSetSeq sets the starting sequence numbers of an established pair (client connection, server-side connection).
+func VerifSetSeq(cl *ClientDnsConnection, sc net.Conn, c0, s0 uint16) {
+	u := sc.(*userConnection)
+	cl.out.NextSeqNo, u.in.NextSeqNo = c0, c0
+	u.out.NextSeqNo, cl.in.NextSeqNo = s0, s0
+}
+
+// VerifClientAvailable reads what is buffered on the client connection without blocking.
+func VerifClientAvailable(cl *ClientDnsConnection, buf []byte) []byte {
+	if !cl.in.HasData() {
+		return nil
+	}
+	n, _ := cl.in.Read(buf)
+	return append([]byte{}, buf[:n]...)
+}
+
+// VerifIdle: both out queues drained.
+func VerifIdle(cl *ClientDnsConnection, sc net.Conn) bool {
+	u := sc.(*userConnection)
+	_, n1, _ := cl.out.VerifState()
+	_, n2, _ := u.out.VerifState()
+	return n1 == 0 && n2 == 0
+}
